@@ -111,7 +111,7 @@ def spellings(u):
             for d in SPELL_DEN[den]:
                 out.append(p + b + "/" + d)
     if (pre, base, den) in PARTS_PER:
-        out.append(PARTS_PER[(pre, base, den)])
+        out.extend([PARTS_PER[(pre, base, den)]] * len(out))     # parts-per spellings: half of the picks
     return out
 
 
